@@ -8,7 +8,7 @@ use crate::util::{guard, par_map, Kv};
 
 pub fn meta(_ctx: &Ctx) -> Meta {
     Meta {
-        rule: "block layer lists {[dense],[dense,dense]} (flat) and {[conv],[conv,conv],[deconv],[conv,deconv],[conv,pool]} (spatial, shape-preserving) x activations {linear, ReLU, tanh} x loops L in 1..4 (1..9 for three of the block lists) x all 4 skip-flag combinations x all 5 accumulations x followed by a dense layer or not x fed by the network input or a preceding layer (dense -> block of spatial layers included) x 2 data valuations (exact small-integer data, inputs multiples of 60 for mean; the second valuation of linear / ReLU blocks scaled by 2^-20) plus the blank sample (all-zero input) for every block, plus identity blocks on inputs near +-3e38 (the mean of such values is representable, their sum is not), plus blocks NEAR A FIXED POINT of their repeated map (x -> g x + (1-g), g in {2, 1/2}, started 1 / 8 ulp from the fixed point, L in {8,16,22}, all flags and accumulations). Oracles: a block without skips equals, bit for bit, the plain network in which its layer list is written out L times; reference interpreter rep_1=f(x), rep_i=f(comb(rep_{i-1},[x])) with input skips, out=comb(rep_L,[rep_1..rep_{L-1}]) with output skips. Non-trivial = reference output has >= 2 distinct non-zero entries".into(),
+        rule: "block layer lists {[dense],[dense,dense]} (flat) and {[conv],[conv,conv],[deconv],[conv,deconv],[conv,pool]} (spatial, shape-preserving) x activations {linear, ReLU, tanh} x loops L in 1..4 (1..9 for three of the block lists) x all 4 skip-flag combinations x all 5 accumulations x followed by a dense layer or not x fed by the network input or a preceding layer (dense -> block of spatial layers included) x 2 data valuations (exact small-integer data, inputs multiples of 60 for mean; the second valuation of linear / ReLU blocks scaled by 2^-20) plus the blank sample (all-zero input) for every block, plus identity blocks on inputs near +-3e38 (the mean of such values is representable, their sum is not), plus blocks NEAR A FIXED POINT of their repeated map (x -> g x + (1-g), g in {2, 1/2}, started 1 / 8 ulp from the fixed point, L in {8,16,22}, all flags and accumulations). every block with L <= 3 also AFTER a learn() call on the network (parameters read back), as built and with a dropout rate of 1/2 on every block layer (prediction must be the dropout-free repeated application; tolerance 1e-4 there). Oracles: a block without skips equals, bit for bit, the plain network in which its layer list is written out L times; reference interpreter rep_1=f(x), rep_i=f(comb(rep_{i-1},[x])) with input skips, out=comb(rep_L,[rep_1..rep_{L-1}]) with output skips. Non-trivial = reference output has >= 2 distinct non-zero entries".into(),
         bound: "L <= 4 (9 for three block lists), block lists of <= 2 layers, planes 3x3 and 3x4; complete product (thorough: L in 1..10, 12, 16 for every block list, block lists of 3 and 4 layers, a block fed by another block)".into(),
         exhaustive: true,
         assumptions: vec!["bit-exact agreement is counted; the verdict uses tolerance 2e-6*max|reference| for linear/ReLU blocks (division by 3 is not exact) and 5e-4*max|reference| for tanh blocks".into()],
@@ -123,6 +123,17 @@ fn fb_of(net: &Net) -> (usize, bool, bool, Acc) {
 }
 
 pub fn check(seed: u64, case: &Kv, rep: &mut Report) {
+    // "trained=1": the block is judged AFTER a learn() call on the same network (parameters read back through the hook)
+    let trained = case.opt("trained").is_some();
+    crate::gen::PRETRAIN.with(|p| p.set(trained));
+    if trained {
+        rep.count("cases_judged_after_a_learn_call", 1);
+    }
+    check_inner(seed, case, rep);
+    crate::gen::PRETRAIN.with(|p| p.set(false));
+}
+
+fn check_inner(seed: u64, case: &Kv, rep: &mut Report) {
     let net = Net::parse(case.get("net"));
     let v = case.usize("val");
     rep.states += 1;
@@ -175,6 +186,9 @@ pub fn check(seed: u64, case: &Kv, rep: &mut Report) {
             }
         }
         Err(Mismatch::Rejected(e)) => rep.violate(format!("C11 builder rejects block [{}]", cls.trim()), format!("{}: {}", net.name(), crate::util::first_line(&e)), case),
+        // training is not C11's subject: a learn() call that the library refuses (max-pool inside a trained block, internal
+        // skips between unequal widths - both outside the statements, section 9) only means this trained case is not judged
+        Err(Mismatch::Panics(e)) if e.starts_with("learn():") => rep.count("trained_cases_whose_learn_call_is_refused_skipped", 1),
         Err(Mismatch::Panics(e)) => rep.violate(format!("C11 forward panics [{}]", cls.trim()), format!("{}: {}", net.name(), crate::util::first_line(&e)), case),
         Err(Mismatch::Shape(e)) => rep.violate(format!("C11 output shape [{}]", cls.trim()), format!("{}: {}", net.name(), e), case),
         Err(Mismatch::Value(e)) => rep.violate(format!("C11 block output [{}]", cls.trim()), format!("{}: {}", net.name(), e), case),
@@ -218,6 +232,29 @@ pub fn run(ctx: &Ctx) -> Report {
     let ns = nets(ctx.tier.thorough());
     let vals = if ctx.tier.thorough() { 4 } else { 2 };
     let mut cs: Vec<Kv> = ns.iter().flat_map(|n| (0..vals).map(move |v| Kv::new().put("net", n.name()).put("val", v))).collect();
+    // the block AFTER a learn() call (loops <= 3, blocks of dense / convolution / deconvolution layers): as built, and with
+    // a dropout rate of 1/2 on every block layer - prediction after training must be the dropout-free repeated application
+    for n in ns.iter() {
+        // every block of the network (thorough has networks with two blocks) must satisfy L <= 3: a chain of 18 trained
+        // tanh layers amplifies single-precision rounding beyond any tolerance that would still mean something
+        let loops = n.layers.iter().filter_map(|l| if let L::Fb { loops, .. } = l { Some(*loops) } else { None }).max().unwrap_or(1);
+        if loops > 3 || n.name().contains("pool") {
+            continue;
+        }
+        cs.push(Kv::new().put("net", n.name()).put("val", 0).put("trained", 1));
+        let mut m = n.clone();
+        for l in m.layers.iter_mut() {
+            if let L::Fb { layers, .. } = l {
+                for q in layers.iter_mut() {
+                    match q {
+                        L::Dense { drop, .. } | L::Conv { drop, .. } | L::Deconv { drop, .. } => *drop = Some(0.5),
+                        _ => (),
+                    }
+                }
+            }
+        }
+        cs.push(Kv::new().put("net", m.name()).put("val", 0).put("trained", 1));
+    }
     // the blank sample for every block, and blocks near a fixed point of their repeated map
     cs.extend(ns.iter().map(|n| Kv::new().put("net", n.name()).put("val", 7)));
     cs.extend(fixed_point_nets().iter().flat_map(|n| [8usize, 9].into_iter().map(move |v| Kv::new().put("net", n.name()).put("val", v))));
